@@ -33,6 +33,11 @@ def main():
     rc = 2
     try:
         rc = _main(prop, args.tier, seed, args.replay)
+    except BaseException as e:   # anything unexpected is a harness error (exit 2), never a violation
+        import traceback
+        print('HARNESS-ERROR property=%s unexpected %r' % (prop, e))
+        traceback.print_exc()
+        rc = 2
     finally:
         shutil.rmtree(home, ignore_errors=True)
     sys.stdout.flush()
